@@ -59,8 +59,41 @@ pub fn run_script(s: &Script, rep: &mut Report, seen: &mut BTreeSet<Hash>, c07: 
     };
     let ctx = json!({"rich_treasury": s.rich, "g": s.g, "staking": s.staking, "rounds": s.rounds.iter().map(|r| format!("{:?}", r)).collect::<Vec<_>>()});
     let mut produced = 0u64;
-    let cls = |r: &Round| format!("{}{}", match &r.tx { TxKind::None => "none".to_string(), TxKind::Pay { fee, route, .. } => format!("fee{}route{}", fee, route) }, if r.gt { "+gt" } else { "" });
+    let cls = |r: &Round| format!("{}{}", match &r.tx { TxKind::None => "none".to_string(), TxKind::PeerConflict(f) => format!("peerconflict{}", f), TxKind::Pay { fee, route, .. } => format!("fee{}route{}", fee, route) }, if r.gt { "+gt" } else { "" });
     for (ri, r) in s.rounds.iter().enumerate() {
+        if let TxKind::PeerConflict(pfee) = r.tx.clone() {
+            let ts0 = p.tip_ts + 2 * hb;
+            let t1 = p.make_tx(&TxKind::Pay { payer: 1, fee: pfee, route: 1 }, ts0);
+            let t2 = p.make_tx(&TxKind::Pay { payer: 2, fee: pfee, route: 1 }, ts0);
+            if t1.is_none() || t2.is_none() {
+                rep.outcome("peer-conflict-round-not-applicable(no funds)");
+            }
+            if let (Some(t1), Some(t2)) = (t1, t2) {
+                let _ = p.submit(t1.clone());
+                let _ = p.submit(t2);
+                // the other producer's block: the same input of K1 spent differently, nothing from the pool
+                if let Some(inp) = t1.from.iter().find(|sl| sl.amount > 0).cloned() {
+                    let k1 = crate::seams::key(1);
+                    let conflict = make_tx(&[inp.clone()], &[(crate::seams::key(2).public, inp.amount)], &k1, ts0 + 1, b"conflict");
+                    let gt_h = (p.tip_id + 1) % 2 == 0;
+                    match crate::props::c13::peer_block(&p, &p.chain.clone(), vec![conflict], ts0 + 1, gt_h) {
+                        Ok(b) => {
+                            let ra = p.node.add_block_bytes(&b);
+                            let _ = p.twin.add_block_bytes(&b);
+                            if matches!(ra, Outcome::Done(AddRes::AddedLongest)) {
+                                let mut chain = p.chain.clone();
+                                chain.push(b);
+                                crate::props::c13::set_chain(&mut p, chain);
+                                rep.outcome("peer-block-conflicting-with-the-pool");
+                            } else {
+                                rep.outcome("peer-block-not-adopted");
+                            }
+                        }
+                        Err(_) => rep.outcome("peer-block-not-buildable"),
+                    }
+                }
+            }
+        }
         let ts = p.tip_ts + r.dt_half_hb * hb / 2;
         rep.transitions += 1;
         if let Some(tx) = p.make_tx(&r.tx, ts) {
@@ -169,6 +202,22 @@ pub fn scripts(tier: &Tier) -> Vec<Script> {
                 v.push(Script { rich: false, g, staking, rounds: r });
             }
         }
+        // a block of another producer conflicting with the pool, then bundling inside / at the
+        // edge of / after the routing-work window
+        for pos in [1usize, 2, (g + 2) as usize] {
+            for dt in [1u64, 2, 3, 4] {
+                for gt in [true, false] {
+                    // fee levels around the routing work a block needs inside the window: one
+                    // remaining transaction alone may or may not be enough
+                    for fee in [1_500u64, 3_000, 6_000, 12_000, 24_000, 400_000] {
+                        let mut r = base.clone();
+                        r[pos] = Round { tx: TxKind::PeerConflict(fee), gt, dt_half_hb: dt };
+                        r.truncate((pos + 3).min(n));
+                        v.push(Script { rich: false, g, staking, rounds: r });
+                    }
+                }
+            }
+        }
         // exhaustive first two rounds from a fresh chain and from a just-wrapped chain
         if staking == 0 || tier.thorough {
             for start in [0usize, (g + 2) as usize] {
@@ -240,7 +289,7 @@ pub fn main(tier: Tier, _replay: Option<String>) -> i32 {
         all.extend(s);
     }
     rep.states = all.len() as u64;
-    rep.required_outcomes = vec!["no-block".into()];
+    rep.required_outcomes = vec!["peer-block-conflicting-with-the-pool".into(), "no-block".into()];
     if !rep.outcomes.keys().any(|k| k.contains("+atr")) {
         rep.machinery("vacuity: no produced block carried a rebroadcast".into());
     }
